@@ -131,7 +131,7 @@ def run_shard(ctx):
 
     @given(regcommon.reg_cases(max_nodes=max_nodes, max_ops=max_ops, xdeps=True, alias=True, sread=True))
     def test(case):
-        check_case(ctx, case)
+        runner.guarded(ctx, check_case, case)
 
     runner.drive(ctx, test, ctx.n(4800, 60000))
 
